@@ -127,7 +127,7 @@ class C09Engine(GenEngineBase):
         "stub": ["none"],
     }
     assumptions = [
-        "formatter environment held fixed (falling back to unformatted text without a formatter is designed behaviour)",
+        "texts printed while a formatter fault window is active are history only (falling back to unformatted text without a formatter is designed behaviour); texts printed after the window closes are compared",
         "a request's reference text is the one produced alone in a fresh interpreter under PYTHONHASHSEED=0",
         "repetition on the same context is compared only when no other function was traced on that context in between",
     ]
@@ -176,8 +176,8 @@ class C09Engine(GenEngineBase):
     def make_case(self, seed, tier="quick"):
         kn = stream(seed, "interp")
         cfg = dict(targets=list(TARGETS) + list(self.extra_targets), n_requests=30 if tier == "quick" else 45, allow_faults=True,
-                   shared=True, debug_levels=DEBUG_LEVELS, generated_programs=0.08 if tier == "quick" else 0.2, deep_stack=0.12,
-                   env_windows=["clang_absent", "clang_exit1", "clang_killed", "black_unimportable"])
+                   shared=True, debug_levels=DEBUG_LEVELS, generated_programs=0.08 if tier == "quick" else 0.2, deep_stack=0.12, variant_pairs=0.3,
+                   env_windows=["clang_absent", "clang_absent", "clang_exit1", "clang_killed", "black_unimportable"])
         return {"seed": seed, "hashseed": kn.choice([0, 1, 2, 3, kn.randrange(2**32), kn.randrange(2**32)]),
                 "history": H.gen_history(seed, self.universe, cfg)}
 
